@@ -1998,6 +1998,7 @@ class Result:
         result = self.copy()
         if l or p: result = result._group_p(l,p)
         if n     : result = result._global_n(n)
+        if n and n != 'min' and (l or p): result = result._group_p(l,p) #dropping short evaluations can leave incomplete groups
         return result
 
     def _remove(self, ids: Sequence[Tuple[int,int,int]], n=0) -> Sequence[int]:
